@@ -53,10 +53,11 @@ package skiplist
 
 //@ pure at(s *Skiplist, i int) *Node = ite(i < s.n, s.phys[i], s.tail)
 //@ pure wfChain(s *Skiplist) bool = s != nil && s.head != nil && s.tail != nil && s.head != s.tail && s.n >= 0 &&
-//@     (forall i int :: 0 <= i && i < s.n ==> s.phys[i] != nil && s.phys[i] != s.head && s.phys[i] != s.tail) &&
-//@     (forall i, j int :: 0 <= i && i < j && j < s.n ==> s.phys[i] != s.phys[j]) &&
+//@     (forall i int {s.phys[i]} :: 0 <= i && i < s.n ==> s.phys[i] != nil && s.phys[i] != s.head && s.phys[i] != s.tail && !s.phys[i].del[0]) &&
+//@     (forall i, j int {s.phys[i], s.phys[j]} :: 0 <= i && i < j && j < s.n ==> s.phys[i] != s.phys[j]) &&
 //@     s.head.nx[0] == at(s, 0) && !s.head.del[0] &&
-//@     (forall i int :: 0 <= i && i < s.n ==> s.phys[i].nx[0] == at(s, i + 1) && !s.phys[i].del[0])
+//@     (forall i, j int {s.phys[i], s.phys[j]} :: 0 <= i && j == i + 1 && j < s.n ==> s.phys[i].nx[0] == s.phys[j]) &&
+//@     (s.n > 0 ==> s.phys[s.n - 1].nx[0] == s.tail)
 //@ pure positioned(it *Iterator) bool = it != nil && it.s != nil && 0 <= it.ix && it.ix <= it.s.n && it.curr == at(it.s, it.ix) &&
 //@     (it.valid || it.ix == it.s.n) && !it.deleted
 
@@ -98,7 +99,7 @@ package skiplist
 // the index of the first node whose item is not below itm. The loops of findPath (goto retry, helping) are
 // not verified: this contract is an assumption of everything that says "modulo L1".
 //@ pure below(s *Skiplist, cmp ref, itm ref, i int) bool = cmpf(cmp, s.phys[i].itm, itm) < 0
-//@ pure monotone(s *Skiplist, cmp ref, itm ref) bool = forall i, j int :: 0 <= i && i < j && j < s.n && !below(s, cmp, itm, i) ==> !below(s, cmp, itm, j)
+//@ pure monotone(s *Skiplist, cmp ref, itm ref) bool = forall i, j int {s.phys[i], s.phys[j]} :: 0 <= i && i < j && j < s.n && !below(s, cmp, itm, i) ==> !below(s, cmp, itm, j)
 
 //@ func (*Skiplist).findPath
 //@ trusted sequential contract of the lock-free search (L1 assumption; loops with goto retry and helping are not verified)
@@ -106,13 +107,13 @@ package skiplist
 //@ requires itm != MinItem && itm != MaxItem
 //@ modifies buf.pos, elems(buf.preds), elems(buf.succs), sts.readConflicts
 //@ ensures 0 <= buf.pos && buf.pos <= s.n
-//@ ensures forall i int :: 0 <= i && i < buf.pos ==> below(s, cmp, itm, i)
+//@ ensures forall i int {s.phys[i]} :: 0 <= i && i < buf.pos ==> below(s, cmp, itm, i)
 //@ ensures buf.pos < s.n ==> !below(s, cmp, itm, buf.pos)
 //@ ensures buf.succs[0] == at(s, buf.pos) && buf.preds[0] == ite(buf.pos > 0, s.phys[buf.pos - 1], s.head)
 //@ ensures foundNode != nil <==> (buf.pos < s.n && cmpf(cmp, s.phys[buf.pos].itm, itm) == 0)
 //@ ensures foundNode != nil ==> foundNode == s.phys[buf.pos]
 
-//@ pure physItemsOK(s *Skiplist) bool = forall i int :: 0 <= i && i < s.n ==> s.phys[i].itm != MinItem && s.phys[i].itm != MaxItem
+//@ pure physItemsOK(s *Skiplist) bool = forall i int {s.phys[i]} :: 0 <= i && i < s.n ==> s.phys[i].itm != MinItem && s.phys[i].itm != MaxItem
 
 //@ func (*Iterator).Seek
 //@ props C09 C14
@@ -121,7 +122,7 @@ package skiplist
 //@ modifies it.valid, it.prev, it.curr, it.ix, it.buf.pos, elems(it.buf.preds), elems(it.buf.succs), it.s.Stats.readConflicts
 //@ ghost-exit it.ix := it.buf.pos
 //@ ensures[pos] positioned(it) && it.valid
-//@ ensures[lower] forall i int :: 0 <= i && i < it.ix ==> below(it.s, it.cmp, itm, i)
+//@ ensures[lower] forall i int {it.s.phys[i]} :: 0 <= i && i < it.ix ==> below(it.s, it.cmp, itm, i)
 //@ ensures[upper] it.ix < it.s.n ==> !below(it.s, it.cmp, itm, it.ix)
 //@ ensures[found] result <==> (it.ix < it.s.n && cmpf(it.cmp, it.s.phys[it.ix].itm, itm) == 0)
 //@ nopanic
